@@ -13,16 +13,16 @@ TECH = {
  "C07": "fact-guarded return analysis of JobsCursor; namespace-split lint (component vs text prefix); shape analysis of groupby filter construction; CFG order in _cast; JSON gating and tokenisation (shlex) in the CLI filter parser helper closure; pre-filter keyed by the keys as given (transitive reaching definitions); CLI selection told from none by identity; int-before-float in whichever function casts the token",
  "C08": "who-may-enumerate scan of _sp_cache; reaching-definition / must-precede (stale snapshot) analysis in update_cache; guard facts of reconcile steps; operator-precedence lint at the staleness test; sequence-argument lint",
  "C09": "CFG sanitiser rule (hash guard between read and use); who-may-read-unvalidated; may-raise sets vs handlers in the repair loop; effect containment of repair; reader default-content rule; desugared comprehension view for the repair loop; all/any(map()) as short-circuiting loops; partial-bound validate flag",
- "C10": "constant folding of write_concern; CFG ordering write->close->os.replace in dependency and update_cache; who-may-write scan for document/cache file names; a rename onto the cache file installs only a temporary written in the same function",
- "C11": "exception-handler classification (re-raise / ENOENT-only / nested clean-up / frozen table) with errno facts from the CFG; error-dropping call configurations; typed raise edges for builtin exceptions; probe-free re-key rule; CLI move delegates; import transfer step deletes nothing",
+ "C10": "constant folding of write_concern; CFG ordering write->close->os.replace in dependency and update_cache; who-may-write scan for document/cache file names; a rename onto the cache file installs only a temporary written in the same function; migration renames only",
+ "C11": "exception-handler classification (re-raise / ENOENT-only / nested clean-up / frozen table) with errno facts from the CFG; error-dropping call configurations; typed raise edges for builtin exceptions; probe-free re-key rule; CLI move delegates; import transfer step deletes nothing; handler classification also over signac.sync / signac.import_export",
  "C12": "call-configuration of reachable mkdirs; who-may-write the state point file; scan for disable_multithreading; reuse of C02/C10 path rules; abstract error-kind evaluation of guard clauses (which errno reaches which raise); contention errno tolerated (abstract error kinds through nested try statements); clone attempted then handled (no existence probe)",
  "C13": "argument-role (source/destination) analysis via reaching definitions; CFG path facts for exclude list completion; delete-primitive ownership table; role-based exclude-list completion; closure late-binding lint; CLI selection not computed in the destination, empty selection by identity",
- "C14": "must-facts at copy / overwrite sites (strategy consulted); path enumeration in ByKey; recursion accumulator def-use; handler breadth + restore order in backup context managers; gate by CFG facts (--key non-empty, max() ties); bulk shallow-update lint; dependency tightening; self-recursive helper of ByKey followed; Project.clone cannot receive dirs_exist_ok",
+ "C14": "must-facts at copy / overwrite sites (strategy consulted); path enumeration in ByKey; recursion accumulator def-use; handler breadth + restore order in backup context managers; gate by CFG facts (--key non-empty, max() ties); bulk shallow-update lint; dependency tightening; self-recursive helper of ByKey followed; Project.clone cannot receive dirs_exist_ok; CLI strategy origin and anchored key pattern; wrapper pass-through",
  "C15": "guard dominance (dry_run must-facts) for every mutating primitive in the proxies; alias-escape rule for _DocProxy; option-forwarding def-use; arity check of all resolved internal calls; derived-name option forwarding; propositional entailment of the fast-path guard; CLI option forwarding table (exclude, deep, dry_run, recursive, parallel) and selection discipline; comparator class found wherever it lives",
- "C16": "CFG must-pass-through (uniqueness check before copy); order-independence shape rule; path-prefix component-awareness lint; raise-before-yield reachability in import analysers; table agreement; doubled-separator and one-level tar nesting rules; accepted-type table; sentinel by role; one-shot iterator lint; extraction directory outside the workspace; consistency check compared as values",
+ "C16": "CFG must-pass-through (uniqueness check before copy); order-independence shape rule; path-prefix component-awareness lint; raise-before-yield reachability in import analysers; table agreement; doubled-separator and one-level tar nesting rules; accepted-type table; sentinel by role; one-shot iterator lint; extraction directory outside the workspace; consistency check compared as values; links-followed rule for export tree copies",
  "C17": "validate-before-mutate CFG ordering; selection-bypass def-use; walk-pruning and update-condition shape rules for the view analysis; separator coverage, dead-branch and tokenisation rules for the view path builder; both os.walk name lists read; view analysis in _analyze_view or _update_view; CLI view with empty selection",
  "C18": "abstract evaluation of typed index keys; constant folding / namespace barrier check; guard facts of exclude_const; set-algebra shape + None-conflation lint in diff_jobs; index builder iterates the listing; desugared comprehension view; CLI schema / diff selection discipline and exclude_const forwarding",
- "C19": "call-graph effect containment on init_project's success path; regex API + argument shape rules in get_job; no-symlink-resolution scan of discovery functions; guard-clause form of init_project; exists-before-search in discovery; only init / migrate create directories in the CLI",
+ "C19": "call-graph effect containment on init_project's success path; regex API + argument shape rules in get_job; no-symlink-resolution scan of discovery functions; guard-clause form of init_project; exists-before-search in discovery; only init / migrate create directories in the CLI; CLI PROJECT argument forwarded as given",
  "C20": "CFG must-precede of the version gate; path facts of the compatibility check; exception-hierarchy facts; registry completeness by constant folding; raise-after-mutation reachability in migrations; CFG loader exhaustion and version bump ordering; workspace directory rule; the loop moving legacy files does not stop at the first missing one",
 }
 checks = []
